@@ -112,8 +112,54 @@ DEEP = [("deep-parentheses", ".dw " + "(" * 20000 + "1" + ")" * 20000), ("deep-u
         ("deep-function", ".dw " + "low(" * 20000 + "1" + ")" * 20000)]
 
 
+REPEATED = {
+    "macro-call": (".macro m\n .dw @0\n.endm\n", " m %d\n"), "macro-call-noarg": (".macro m\n nop\n.endm\n", " m\n"),
+    "macro-call-nested": (".macro i\n nop\n.endm\n.macro m\n i\n.endm\n", " m\n"), "set": ("", ".set v = %d\n"),
+    "set-use": (".set v = 0\n", ".set v = v + 1\n .dw v\n"), "def-undef": ("", ".def t = r16\n.undef t\n"), "equ": ("", ".equ e%d = 1\n"),
+    "label": ("", "l%d:\n"), "message": ("", ".message \"m\"\n"), "if": ("", ".if 1\n nop\n.endif\n"), "if0": ("", ".if 0\n nop\n.endif\n"),
+    "seg-switch": ("", ".dseg\n.byte 1\n.cseg\n nop\n"), "macro-def": ("", ".macro m%d\n nop\n.endm\n"), "define": ("", ".define F%d\n"),
+    "db-str": ("", " .db \"abcdefgh\"\n"), "eseg-db": (".eseg\n", " .db %d & 255\n"), "nop": ("", " nop\n"), "equ-chain-use": (".equ a = 1\n", " .dw a + %d\n"),
+    "comment": ("", "; c\n"), "blank": ("", "\n"), "includepath": ("", ".includepath \"d%d\"\n"), "org": ("", None),
+}
+PROMPT_SECONDS = 3.0
+
+
+def repeated_programs():
+    """64 KiB (the bound of the property's quantifier) of one kind of line each: the time must stay proportional to the size"""
+    out = []
+    for k, (head, line) in REPEATED.items():
+        if line is None:
+            body = "".join(".org %d\n nop\n" % (2 * i + 2) for i in range(5000))
+        else:
+            n = (65536 - len(head)) // len(line.replace("%d", "12345"))
+            body = "".join((line % i if "%d" in line else line) for i in range(n))
+        out.append((k, head + body))
+    return out
+
+
+def run_repeated(res, vh):
+    import time
+    from . import common as C
+    for kind, text in repeated_programs():
+        best, obs = None, ""
+        for _ in range(2):          # a second try separates a slow machine from a slow assembler
+            t0 = time.time()
+            obs = C.vh(vh, ["build-worker"], input=text.encode("utf-8").hex() + "\n").strip()
+            dt = time.time() - t0
+            best = dt if best is None else min(best, dt)
+            if best <= PROMPT_SECONDS:
+                break
+        res.count(("repeated", kind), nontrivial=True)
+        k = obs.split(" ")[0]
+        if k in ("PANIC", "CRASH", "TIMEOUT", "MISSING") or best > PROMPT_SECONDS:
+            P.fail(res, "builder::build_str (isolated worker)", "%s ... (%d bytes: 64 KiB of this line)" % (text[:80], len(text)),
+                   "a result or an error value within %.0f s" % PROMPT_SECONDS, "%s after %.1f s" % (k, best), "slow:" + kind)
+    res.extra.setdefault("distribution", {})["repeated_line_programs"] = len(REPEATED)
+
+
 def run(res):
     vh, exe = P.base(res, PROP)
+    run_repeated(res, vh)
     rng = random.Random(res.seed)
     from . import gen
     texts = [l + "\n" for l in single_lines(res.tier)] + [l + "\n" for l in device_lines(gen.read_devices(vh), res.tier)]
